@@ -131,6 +131,7 @@ theorem callee_starts_with_params_only (cfg : Cfg) (f : Nat) (name : Str) (args 
         | [] => .panic "env.scrape" τ.out
         | _ :: rest => .ok (τ.ret.getD .null, { τ with ret := σ1.ret, scopes := rest }) := by
   simp only [expr, hx, Res.bind_ok, hf, hn, bne_self_eq_false, Bool.false_eq_true, ↓reduceIte]
+  try rfl
 
 theorem Frame.get?_set_ne (fr : Frame) (x y : Str) (v : Value) (h : y ≠ x) :
     (Frame.set fr x v).get? y = fr.get? y := by
@@ -254,5 +255,113 @@ theorem spec_callee_starts_with_params_only (cfg : Cfg) (f : Nat) (name : Str) (
         | _ :: rest => .ok ((match sig with | .ret v => v | _ => .null), { τ with scopes := rest }) := by
   simp only [Spec.expr, hx, Res.bind_ok, hf, hn, bne_self_eq_false, Bool.false_eq_true, ↓reduceIte]
   try rfl
+
+/-! ## non-vacuity: concrete states and programs, checked by kernel evaluation of the model -/
+
+namespace C03bDemo
+
+def cfg0 : Cfg := genCfg CharEnv.ascii
+def tk : Token := default
+
+def numIs (o : Option Value) (n : Float) : Bool := match o with | some (.num x) => x == n | _ => false
+def isNone (o : Option Value) : Bool := match o with | none => true | _ => false
+def pairOr (r : Res (Value × St)) : Value × St := match r with | .ok p => p | _ => (.null, default)
+def stateOr (r : Res St) : St := match r with | .ok σ => σ | _ => default
+
+theorem pair_eq_of_ok (r : Res (Value × St)) (h : (match r with | .ok _ => true | _ => false) = true) :
+    r = .ok ((pairOr r).1, (pairOr r).2) := by
+  cases r <;> first | rfl | cases h
+theorem state_eq_of_ok (r : Res St) (h : (match r with | .ok _ => true | _ => false) = true) :
+    r = .ok (stateOr r) := by
+  cases r <;> first | rfl | cases h
+
+/-- `{ y <- x ; a <- 99 ; RETURN y }` -/
+def bodyF : Stmt :=
+  .block tk [.expr (.assign ['y'] tk (.var ['x'] tk) tk),
+             .expr (.assign ['a'] tk (.lit (.num 99) tk) tk),
+             .ret tk (some (.var ['y'] tk))] tk
+/-- `f(a)` -/
+def callF : Expr := .call ['f'] [.var ['a'] tk] [(0, 0)] tk tk tk
+/-- the caller: current frame `a = 5` on top of an outer frame `g = 1`; `f(x)` is declared -/
+def σA : St := { scopes := [[(['a'], .num 5)], [(['g'], .num 1)]], procs := [(['f'], .user [['x']] bodyF)] }
+
+/-- the call yields a value: the hypothesis of `call_leaves_caller_frames` is satisfiable … -/
+theorem callF_ok : expr cfg0 12 callF σA = .ok ((pairOr (expr cfg0 12 callF σA)).1, (pairOr (expr cfg0 12 callF σA)).2) :=
+  pair_eq_of_ok _ (by decide +kernel)
+
+/-- … and its conclusion, here: both frames of the caller are back, exactly -/
+example : ∃ v σ', expr cfg0 12 callF σA = .ok (v, σ') ∧ σ'.scopes = σA.scopes := by
+  obtain ⟨vs, σ1, hx, hs, _⟩ := call_leaves_caller_frames cfg0 11 _ _ _ _ _ _ σA _ _ callF_ok
+  have hx' : exprs cfg0 11 [.var ['a'] tk] σA = .ok ([.num 5], σA) := rfl
+  rw [hx'] at hx
+  injection hx with hx
+  injection hx with _ hσ
+  exact ⟨_, _, callF_ok, by rw [hs, ← hσ]⟩
+
+/-- what the kernel computes for this call: the value is 5; `a` is still 5 although the body assigned `a <- 99`
+(that went to the callee's frame); the callee's `y` and `x` are gone; the outer frame is untouched -/
+example : numIs (some (pairOr (expr cfg0 12 callF σA)).1) 5 = true ∧
+    numIs (lookupVar (pairOr (expr cfg0 12 callF σA)).2 ['a']) 5 = true ∧
+    isNone (lookupVar (pairOr (expr cfg0 12 callF σA)).2 ['y']) = true ∧
+    isNone (lookupVar (pairOr (expr cfg0 12 callF σA)).2 ['x']) = true ∧
+    (pairOr (expr cfg0 12 callF σA)).2.scopes.length = 2 := by decide +kernel
+
+/-- the hypotheses of `callee_starts_with_params_only` and `user_call_frames` hold for this call -/
+example : exprs cfg0 11 [.var ['a'] tk] σA = .ok ([.num 5], σA) ∧
+    σA.procs.find? ['f'] = some (.user [['x']] bodyF) ∧ [['x']].length = [Value.num 5].length :=
+  ⟨rfl, rfl, rfl⟩
+
+example : ∃ τ fr, stmt cfg0 11 bodyF { σA with scopes := bindParams [['x']] [.num 5] [] :: σA.scopes, ret := none } = .ok τ ∧
+    τ.scopes = fr :: σA.scopes := by
+  obtain ⟨_, τ, fr, hb, hfr, _, _⟩ := user_call_frames cfg0 11 ['f'] [.var ['a'] tk] [(0, 0)] tk tk tk σA σA _
+    [.num 5] [['x']] bodyF _ rfl rfl callF_ok
+  exact ⟨τ, fr, hb, hfr⟩
+
+/-- the body starts on the parameters' frame: `x` is bound to the argument, the caller's `a` and the outer `g`
+are not visible -/
+example :
+    let σc : St := { σA with scopes := bindParams [['x']] [.num 5] [] :: σA.scopes, ret := none }
+    numIs (lookupVar σc ['x']) 5 = true ∧ lookupVar σc ['a'] = none ∧ lookupVar σc ['g'] = none := by
+  refine ⟨by decide +kernel, ?_, ?_⟩
+  · exact (callee_sees_parameters_only σA [['x']] [.num 5]).2.2 ['a'] (by decide)
+  · exact (callee_sees_parameters_only σA [['x']] [.num 5]).2.2 ['g'] (by decide)
+
+/-- a statement run on two frames keeps the lower one (`stmt_changes_top_frame_only`): the block
+`{ b <- 2 }` run on `[a = 5] :: [g = 1]` -/
+def blockB : Stmt := .block tk [.expr (.assign ['b'] tk (.lit (.num 2) tk) tk)] tk
+
+example : ∃ σ' top', stmt cfg0 8 blockB σA = .ok σ' ∧ σ'.scopes = top' :: [[(['g'], .num 1)]] := by
+  have h := state_eq_of_ok (stmt cfg0 8 blockB σA) (by decide +kernel)
+  obtain ⟨top', ht⟩ := stmt_changes_top_frame_only cfg0 8 blockB σA _ _ _ rfl h
+  exact ⟨_, top', h, ht⟩
+
+/-! through the whole pipeline (`run`: lexer, parser, evaluator) -/
+
+def finalOr (o : RunOut) : St := o.final.getD default
+def endedOk (o : RunOut) : Bool := match o.status with | .ok => true | _ => false
+
+/-- by value: the callee assigns to its parameter's namesake `a` and defines `y`; after the call the caller's
+`a` is still 5, `r` is the returned 6, `y` does not exist, and one scope is left -/
+def srcA : Str := "a <- 5\nPROCEDURE f(x) { y <- x + 1\n a <- 99\n RETURN y }\nr <- f(a)\n".toList
+
+example : endedOk (Aplang.run cfg0 60 srcA {} []) = true ∧
+    numIs (lookupVar (finalOr (Aplang.run cfg0 60 srcA {} [])) ['a']) 5 = true ∧
+    numIs (lookupVar (finalOr (Aplang.run cfg0 60 srcA {} [])) ['r']) 6 = true ∧
+    isNone (lookupVar (finalOr (Aplang.run cfg0 60 srcA {} [])) ['y']) = true ∧
+    (finalOr (Aplang.run cfg0 60 srcA {} [])).scopes.length = 1 := by decide +kernel
+
+/-- by reference: the callee appends to the list its parameter refers to and then rebinds the parameter; after
+the call the caller's `l` holds the *same reference* (cell 0) — the frames are unchanged — while the cell it
+points to now has two elements: mutation through a shared reference is the specified behaviour of lists -/
+def srcB : Str := "l <- [1]\nPROCEDURE g(p) { APPEND(p, 2)\n p <- 7 }\ng(l)\n".toList
+
+def refIs (o : Option Value) (a : Nat) : Bool := match o with | some (.list b) => a == b | _ => false
+
+example : endedOk (Aplang.run cfg0 60 srcB {} []) = true ∧
+    refIs (lookupVar (finalOr (Aplang.run cfg0 60 srcB {} [])) ['l']) 0 = true ∧
+    (getList (finalOr (Aplang.run cfg0 60 srcB {} [])) 0).map List.length = some 2 ∧
+    isNone (lookupVar (finalOr (Aplang.run cfg0 60 srcB {} [])) ['p']) = true := by decide +kernel
+
+end C03bDemo
 
 end Aplang
